@@ -155,6 +155,9 @@ End Forms.
 Lemma die_text_colon d : emits_colon_space (write_die d) = true.
 Proof. unfold write_die. cbn. reflexivity. Qed.
 
+Theorem die_text_found d : string_route_found (text_of (write_die d)) = ParseText.
+Proof. rewrite written_text_found, die_text_colon. reflexivity. Qed.
+
 (* identifiers hold no ': ' *)
 Lemma idchar_not_colon c : is_colon c = true -> is_letter c || is_digit c = false.
 Proof. unfold is_colon. intro H. apply Ascii.eqb_eq in H. subst c. reflexivity. Qed.
@@ -231,6 +234,13 @@ Lemma empty_cells_facts :
   abs_of_string empty_cells_text = text_of (write_alloc empty_cells) /\
   string_route_found (abs_of_string empty_cells_text) = OpenFile /\
   string_route (abs_of_string empty_cells_text) = ParseText.
+Proof. repeat split; vm_compute; reflexivity. Qed.
+
+(* a plain path is a file name *)
+Lemma file_name_example :
+  string_route (abs_of_string "/tmp/allocations/a_1.yaml") = OpenFile /\
+  string_route (abs_of_string empty_cells_text) = ParseText /\
+  abs_of_string empty_cells_text = text_of (write_alloc empty_cells).
 Proof. repeat split; vm_compute; reflexivity. Qed.
 
 (* with any text layer that keeps its contract, the reader as found is handed nothing when no
